@@ -272,6 +272,9 @@ def gen_option_program(rnd, tag, shape, base_kind):
         steps.append(["derive", "Src" + tag, [opn] + ([None] if opn in ("omit", "pick") else []), None])
     for opn in ("omit", "pick"):
         steps.append(["derive", "Src" + tag, [opn, None], "M%s_%s" % (opn, tag), "method"])
+    for opn in OPS:
+        ext = plain("Ext%s_%s" % (opn, tag), [D.OP_CLS[opn] + "Src" + tag], ["x0"], None)
+        steps.append(["def", ext])
     return steps
 
 
@@ -404,7 +407,7 @@ def none_key(S, Dc, op):
     return None
 
 
-def behaviour_clauses(rnd, S, Dc, fmap_s, op, n_vals, rep, report, step=None):
+def behaviour_clauses(rnd, S, Dc, fmap_s, op, n_vals, rep, report, step=None, extra=None):
     """Every retained field accepts / rejects / normalises exactly as in the source -- at construction and at
     assignment --, is the very same field object and keeps its default."""
     sf = S.get_all_fields_by_name()
@@ -417,6 +420,21 @@ def behaviour_clauses(rnd, S, Dc, fmap_s, op, n_vals, rep, report, step=None):
     if base is None:
         return 0
     based = {k: v for k, v in base.items() if k in df}
+    if extra:
+        # Dc is a class statement on top of a derived class: valid values for the fields it adds
+        for _ in range(10):
+            try:
+                add = {k: G.gen_valid(rnd, f, {}) for k, f in extra.items()}
+                Dc(**{k: G.unreify(v, {}) for k, v in dict(based, **add).items()})
+                based.update(add)
+                break
+            except Exception:  # noqa
+                continue
+        else:
+            try:
+                Dc(**{k: G.unreify(v, {}) for k, v in based.items()})
+            except Exception:  # noqa
+                return 0           # no valid instance because of the ADDED fields: nothing to compare
     try:
         Dc(**{k: G.unreify(v, {}) for k, v in based.items()})
     except Exception as ex:  # noqa
@@ -571,12 +589,30 @@ def _clauses(rnd, prog, outs, ns, rep, stream, n_vals, cfg, cfg_use):
                        "class %s is not what it was when it was made (step %d)" % (nm, i),
                        {"class": nm, "then": outs[i][1], "now": now})
     made = {}                       # id(class object) -> name of the step that produced it first
+    derived_from = {}               # name of a derived class -> index of the derive step
     for i, (st, o) in enumerate(zip(prog, outs)):
         if st[0] == "def" and o[0] == "ok" and ns.get(D.step_name(st)) is not None and last_binding.get(D.step_name(st)) == i:
             made.setdefault(id(ns[D.step_name(st)]), D.step_name(st))
+        if st[0] == "def" and o[0] == "ok" and len(st[1]["bases"]) == 1 and st[1]["bases"][0] in derived_from:
+            # "the same holds when the derived class is further extended with new fields": a class statement on
+            # top of a derived class that sets no option of its own and redeclares nothing
+            j = derived_from[st[1]["bases"][0]]
+            stm = st[1]
+            S, X = ns.get(prog[j][1]), ns.get(stm["name"])
+            own = {m["name"]: (m["field"] if m["kind"] == "decl" else None) for m in stm["members"]}
+            if (S is not None and X is not None and last_binding.get(stm["name"]) == i
+                    and stm.get("ignore_none") is None and stm.get("required") is None and stm.get("optional") is None
+                    and not any(a[0].startswith("_enable") for a in stm.get("attrs") or [])
+                    and not set(own) & set(S.get_all_fields_by_name()) and None not in own.values()):
+                opx = [prog[j][2][0] + "+subclass"]
+                n = behaviour_clauses(rnd, S, X, fmaps.get(prog[j][1], {}), opx, n_vals, rep, report, step=None, extra=own)
+                rep.count(stream + ":values-extended-class", n)
+            continue
         if st[0] != "derive":
             continue
         op = st[2]
+        if o[0] == "ok" and last_binding.get(D.derived_name(st)) == i:
+            derived_from[D.derived_name(st)] = i
         S = ns.get(st[1])
         rep.count(stream, 1, (op[0], len(op[1]) if len(op) > 1 else -1, o[0],
                               tuple(sorted(S.get_all_fields_by_name())) if S is not None else ()))
